@@ -41,6 +41,19 @@ def generate(tier, rng):
         for call in calls:
             yield {"fam": "adversarial", "fl": "nm", "asrt": False, "n0": k, "ops": st + [call], "kind": rng.choice(KINDS),
                    "base": rng.choice(["nm", "light"]), "params": _params(rng, k + 1), "loglevel": 0}
+    # wide sibling lists: equality-based list operations (list.remove, `in`, index) only go wrong when a node
+    # has an *earlier* sibling that compares equal, so parents with 3-5 children and every move of every child
+    for k in (4, 5, 6):
+        star = [{"op": "sp", "n": i, "v": 0} for i in range(1, k)]
+        for kind in KINDS:
+            for base in ("nm", "light"):
+                for n in range(1, k):
+                    for v in [None] + [x for x in range(k) if x != 0]:
+                        yield {"fam": "adversarial", "fl": "nm", "asrt": False, "n0": k, "ops": star + [{"op": "sp", "n": n, "v": v}],
+                               "kind": kind, "base": base, "params": _params(rng, k), "loglevel": 0}
+                yield {"fam": "adversarial", "fl": "nm", "asrt": False, "n0": k,
+                       "ops": star + [{"op": "sc", "n": 0, "xs": list(range(k - 1, 0, -1))}, {"op": "sc", "n": 0, "xs": [2, 1]}],
+                       "kind": kind, "base": base, "params": _params(rng, k), "loglevel": 0}
     for _ in range(300 if tier == "quick" else 5000):
         n0 = rng.randrange(3, 7)
         ops = fc.random_history(rng, n0, rng.randrange(3, 11 if tier == "quick" else 26), nonnode=False)
